@@ -338,13 +338,49 @@ def comp(env, src):
     except RecursionError:
         return "ERR:RecursionError"
 
-items = json.load(sys.stdin)
-envs, out = {}, []
-for it in items:
+import os
+MODE = os.environ.get("JV_C30_MODE", "")
+
+def render_quietly(env, src):
+    """history: run the template too (filters/tests that are not folded execute now); outcomes are irrelevant here"""
+    try:
+        t = env.from_string(src)
+        if env.is_async:
+            import asyncio
+            asyncio.run(t.render_async())
+        else:
+            t.render()
+    except Exception:
+        pass
+
+payload = json.load(sys.stdin)
+if MODE == "culprit":
+    # which template of the pool changes what compiling the victim gives?  compile victim, then pool members one by one
+    v, pool = payload["victim"], payload["pool"]
+    base = comp(make(v["cfg"]), v["src"])
+    found = None
+    for k, it in enumerate(pool):
+        env = make(it["cfg"])
+        comp(env, it["src"])
+        render_quietly(env, it["src"])
+        now = comp(make(v["cfg"]), v["src"])
+        if now != base:
+            found = {"index": k, "item": it, "before": base, "after": now}
+            break
+    json.dump(found, sys.stdout)
+    raise SystemExit(0)
+
+items = payload
+order = list(range(len(items)))
+if MODE == "history-rev":
+    order.reverse()
+envs, out = {}, [None] * len(items)
+for i in order:
+    it = items[i]
     env = envs.get(it["cfg"]) or envs.setdefault(it["cfg"], make(it["cfg"]))
     a = comp(env, it["src"])
-    if it.get("once"):      # constant-folding family: hash-seed comparison only
-        out.append({"src": a, "b": None, "c": None, "alt": None})
+    if it.get("once") or MODE:      # constant-folding family / history workers: one compile in the first pass
+        out[i] = {"src": a, "b": None, "c": None, "alt": None}
         continue
     b = comp(env, it["src"])
     c = comp(make(it["cfg"]), it["src"])
@@ -354,37 +390,63 @@ for it in items:
             alt = comp(make(it["cfg"], alt=True), it["src"])
         except Exception:
             alt = None
-    out.append({"src": a, "b": None if a == b else b, "c": None if a == c else c, "alt": alt})
+    out[i] = {"src": a, "b": None if a == b else b, "c": None if a == c else c, "alt": alt}
+if MODE:
+    # history: everything has been compiled once; now RUN the small constant-operand templates (every registered filter and
+    # test with its optional arguments executes at least here), then compile every template again, in the environment that
+    # has seen everything and in a brand-new Environment: the generated source must not have changed
+    for i in order:
+        if items[i].get("once") or len(items[i]["src"]) < 400:
+            render_quietly(envs[items[i]["cfg"]], items[i]["src"])
+    for i in order:
+        it = items[i]
+        same = comp(envs[it["cfg"]], it["src"])
+        # a fresh Environment for the small templates (the constant-operand family and the fixed shapes); the large random ones
+        # are covered by the environment that has seen everything
+        fresh = comp(make(it["cfg"]), it["src"]) if (it.get("once") or len(it["src"]) < 400) else out[i]["src"]
+        out[i]["h_same"] = None if same == out[i]["src"] else same
+        out[i]["h_fresh"] = None if fresh == out[i]["src"] else fresh
 json.dump(out, sys.stdout)
 '''
 
 
-def compile_batches(items, seeds, parallel=4):
-    """one worker process per hash seed (all templates in one batch), `parallel` of them at a time"""
-    payload = json.dumps(items)
+def run_workers(jobs, parallel=4):
+    """jobs: list of dict(key, seed, mode, payload); one worker process each, `parallel` at a time; returns key -> result"""
     out = {}
-    todo = list(seeds)
+    todo = list(jobs)
     while todo:
         group, todo = todo[:parallel], todo[parallel:]
         procs = []
-        for seed in group:
+        for job in group:
             env = dict(os.environ)
-            env["PYTHONHASHSEED"] = str(seed)
+            env["PYTHONHASHSEED"] = str(job["seed"])
+            env["JV_C30_MODE"] = job.get("mode", "")
             env.pop("PYTHONPATH", None)
             p = subprocess.Popen([sys.executable, "-B", "-c", WORKER, str(core.REPO / "src")], stdin=subprocess.PIPE,
                                  stdout=subprocess.PIPE, stderr=subprocess.PIPE, text=True, env=env)
-            procs.append((seed, p))
+            procs.append((job, p))
         # feed and drain one after the other; the workers compute concurrently once they have their input
-        for seed, p in procs:
-            p.stdin.write(payload)
+        for job, p in procs:
+            p.stdin.write(job["payload"])
             p.stdin.close()
-        for seed, p in procs:
+        for job, p in procs:
             so = p.stdout.read()
             se = p.stderr.read()
             if p.wait(timeout=1800) != 0:
-                raise core.HarnessError(f"compile worker (PYTHONHASHSEED={seed}) failed: {se[-1500:]}")
-            out[seed] = json.loads(so)
+                raise core.HarnessError(f"compile worker (PYTHONHASHSEED={job['seed']}, mode {job.get('mode')!r}) failed: {se[-1500:]}")
+            out[job["key"]] = json.loads(so)
     return out
+
+
+def compile_batches(items, seeds, parallel=4, history_seed=None):
+    """one worker process per hash seed (all templates in one batch); with `history_seed` two more workers under that seed
+    that compile the batch in order / in reverse order, run the small templates, and compile everything again"""
+    payload = json.dumps(items)
+    jobs = [dict(key=s, seed=s, mode="", payload=payload) for s in seeds]
+    if history_seed is not None:
+        jobs = [dict(key="history", seed=history_seed, mode="history", payload=payload),
+                dict(key="history-rev", seed=history_seed, mode="history-rev", payload=payload)] + jobs
+    return run_workers(jobs, parallel)
 
 
 def compile_batch(items, seed):
@@ -462,7 +524,8 @@ def run_experiment(ctx, res, cov, boost):
     ntempl = ctx.pick(100, 900) * boost
     seeds = [0] + sorted(rng.sample(range(1, 2 ** 32 - 1), nseeds - 1))
     items, hits = gen_items(ctx, ntempl)
-    results = compile_batches(items, seeds, parallel=8)
+    results = compile_batches(items, seeds, parallel=10, history_seed=seeds[0])
+    hist = {k: results.pop(k) for k in ("history", "history-rev")}
     base = results[seeds[0]]
     differing, errors, explained = 0, 0, {}
 
@@ -511,12 +574,60 @@ def run_experiment(ctx, res, cov, boost):
                f"{xa[:100]!r} vs {xb[:100]!r}",
                {"template": it["src"], "config": it["cfg"], "seeds": [seeds[0], other], "first_difference_line": ln,
                 "line_a": xa, "line_b": xb})
+    hist_found = history_check(res, items, seeds[0], base, hist)
+    cov["history"] = {"workers": 2, "templates_recompiled": 2 * 2 * len(items), "templates_whose_source_depends_on_history": hist_found,
+                      "rule": "same hash seed as the base worker; worker 1 compiles the batch in order, worker 2 in reverse order; "
+                              "both then render the small templates and compile every template again in the same environment and "
+                              "in a fresh Environment; all four sources and the base worker's must be equal"}
     cov["experiment"] = {"templates": len(items), "hash_seeds": seeds, "configs": CONFIGS,
                          "compilations": len(items) * len(seeds) * 3,
                          "templates_failing_to_compile": errors, "templates_differing_across_seeds": differing,
                          "differences_explained_by_known_findings": explained, "feature_hits": hits,
                          "mean_source_lines": round(sum(b["src"].count("\n") for b in base) / max(1, len(base)), 1)}
     return items, len(items) * len(seeds)
+
+
+def history_check(res, items, seed, base, hist):
+    """compile determinism across HISTORY in one process (same hash seed throughout)"""
+    found = 0
+    culprit_done = False
+    for i in sorted(range(len(items)), key=lambda k: len(items[k]["src"])):
+        it = items[i]
+        variants = [("compiled first in a worker that takes the batch in order", base[i]["src"])]
+        for mode in ("history", "history-rev"):
+            r = hist[mode][i]
+            how = "in order" if mode == "history" else "in reverse order"
+            variants.append((f"first compile in a process that takes the batch {how}", r["src"]))
+            if r["h_same"] is not None:
+                variants.append((f"compiled again in the same environment after the whole batch ({how}) was compiled and run", r["h_same"]))
+            if r["h_fresh"] is not None:
+                variants.append((f"compiled in a fresh Environment after the whole batch ({how}) was compiled and run", r["h_fresh"]))
+        other = next((v for v in variants[1:] if v[1] != variants[0][1]), None)
+        if other is None:
+            continue
+        if it["family"] == "address" and no_addr(other[1]) == no_addr(variants[0][1]):
+            res.violate(ADDRESS_KEY, "folded object address (regression of df6ea54): " + it["src"], {"template": it["src"], "config": it["cfg"], "seeds": [seed, seed]})
+            continue
+        found += 1
+        tag = it["family"].split(":", 1)[1] if it["family"].startswith("constfold:") else it["cfg"]
+        ln, xa, xb = first_diff(variants[0][1], other[1])
+        replay = {"template": it["src"], "config": it["cfg"], "seeds": [seed, seed], "history": other[0],
+                  "first_difference_line": ln, "line_a": xa, "line_b": xb}
+        if not culprit_done:
+            culprit_done = True
+            try:
+                c = run_workers([dict(key="c", seed=seed, mode="culprit",
+                                      payload=json.dumps({"victim": it, "pool": [x for x in items if x is not it]}))])["c"]
+            except core.HarnessError:
+                c = None
+            if c:
+                replay["culprit"] = {"template": c["item"]["src"], "config": c["item"]["cfg"]}
+        res.violate(f"C30:history-dependence:{tag}",
+                    f"the generated source of a template depends on what the process compiled / rendered before (PYTHONHASHSEED={seed} "
+                    f"throughout, config {it['cfg']}): {other[0]} it differs at line {ln}: {xa[:110]!r} vs {xb[:110]!r}"
+                    + (f"; first template of the batch after which it changes: {replay['culprit']['template'][:160]!r}" if "culprit" in replay else ""),
+                    replay)
+    return found
 
 
 def run(ctx, res):
@@ -555,6 +666,18 @@ def replay(ctx, case):
     c = case.get("case", case)
     if "template" not in c:
         return c
+    if "history" in c:
+        v = {"cfg": c["config"], "src": c["template"], "family": "x"}
+        if "culprit" in c:
+            pool = [{"cfg": c["culprit"]["config"], "src": c["culprit"]["template"], "family": "x"}]
+        else:
+            pool = [x for x in gen_items(ctx, ctx.pick(100, 900))[0] if x["src"] != c["template"]]
+        r = run_workers([dict(key="c", seed=c["seeds"][0], mode="culprit", payload=json.dumps({"victim": v, "pool": pool}))])["c"]
+        if not r:
+            return {"template": c["template"], "history_dependent": False}
+        ln, xa, xb = first_diff(r["before"], r["after"])
+        return {"template": c["template"], "config": c["config"], "history_dependent": True,
+                "after_compiling_and_rendering": r["item"]["src"], "first_difference_line": ln, "before": xa, "after": xb}
     item = [{"cfg": c["config"], "src": c["template"]}]
     s1, s2 = c["seeds"]
     a, b = compile_batch(item, s1)[0], compile_batch(item, s2)[0]
